@@ -196,8 +196,13 @@ MIX = {
     "c02": dict(set=40, setexpr=32, iop=6, unregister=4, regfunc=8, regknob=6, maint=0, load=0, query=0, freeze=0, fault=0),
     "c03": dict(set=16, setexpr=32, iop=6, unregister=16, regfunc=5, regknob=2, maint=10, load=6, query=7, freeze=0, fault=0),
     "c17": dict(set=24, setexpr=24, iop=8, unregister=10, regfunc=5, regknob=2, maint=12, load=6, query=3, freeze=10, fault=0),
+    "c13": dict(set=30, setexpr=50, iop=8, unregister=4, regfunc=0, regknob=0, maint=0, load=0, query=0, freeze=0, fault=0, genfun=8),
     "c18": dict(set=40, setexpr=26, iop=6, unregister=3, regfunc=6, regknob=3, maint=2, load=0, query=0, freeze=0, fault=22),
 }
+
+
+for _m in MIX.values():
+    _m.setdefault("genfun", 0)
 
 
 class Gen:
@@ -210,7 +215,7 @@ class Gen:
         rng.shuffle(order)
         self.rank = {pkey(self.P[i]): r for r, i in enumerate(order)}
         self.nfunc = 0
-        self.acyclic_bias = 0.93 if family in ("c01", "c02", "c18") else 0.8
+        self.acyclic_bias = 0.93 if family in ("c01", "c02", "c18") else (0.97 if family == "c13" else 0.8)
         # "flat producers" mode keeps nested members from reading their own container (no D1 cycles)
         self.safe_nested = rng.random() < 0.6
 
@@ -410,6 +415,9 @@ class Session:
                     mirror.unsettled.add(k)
         elif kind == "query":
             self.emit(op)
+        elif kind == "genfun":
+            self._genfun(op)
+            return
         elif kind == "freeze":
             ln = self.emit(op)
             self.frozen = True
@@ -525,6 +533,56 @@ class Session:
             self._c03_supports(last, key="clone_sup")
         if last["op"] == "verify" and last["impl"]["exc"] != "ok":
             self.fail("C03", "verify-fails", {"exc": last["impl"]["exc"]})
+
+    def _genfun(self, op):
+        """C13: f(*values) on this manager vs assigning the values one by one on a twin"""
+        im, mirror, stats = self.im, self.mirror, self.stats
+        prior = [strip_op(l) for l in self.lines]
+        T, D = declared(im)
+        trig = set()
+        for pth, _ in op["args"]:
+            trig |= triggered_set(T, D, pth)
+        cyc2 = has_two_cycle(T, D, trig)
+        line = self.emit(op)
+        stats["genfun_ops"] = stats.get("genfun_ops", 0) + 1
+        self.c01_live = False
+        for pth, v in op["args"]:
+            mirror.plain[pkey(pth)] = float("nan") if v == "nan" else v
+        if line["impl"]["exc"] != "ok":
+            if line["impl"]["exc"] not in ("KeyError", "IndexError", "TypeError", "AttributeError", "ZeroDivisionError"):
+                self.fail("C13", "generated-function-raises", {"args": op["args"], "exc": line["impl"]["exc"]})
+            return
+        # source lists the triggered expression tasks once each, in dependency order
+        listed = [pkey(x) for x in (line.get("order") or [])]
+        if len(set(listed)) != len(listed):
+            self.fail("C13", "task-listed-twice", {"listed": listed})
+        if set(listed) != trig:
+            self.fail("C13", "listed-tasks-differ", {"args": [a[0] for a in op["args"]], "listed": sorted(listed), "expected": sorted(trig)})
+        elif not cyc2:
+            pos = {t: i for i, t in enumerate(listed)}
+            for u in trig:
+                for t in trig:
+                    if u != t and (T[u] & D[t]) and pos[u] > pos[t]:
+                        self.fail("C13", "listed-out-of-order", {"producer": u, "consumer": t})
+        if cyc2 or mirror.dataflow_cyclic() or mirror.overlapping_targets():
+            stats["c13_out_of_scope"] = stats.get("c13_out_of_scope", 0) + 1
+            return
+        tw = ml.ImplMgr()
+        for o in prior:
+            if o["op"] in ("fault",):
+                continue
+            tw.apply(o)
+        bad = False
+        for pth, v in op["args"]:
+            r = tw.apply({"op": "set", "path": pth, "value": v})
+            bad = bad or r["impl"]["exc"] != "ok"
+        a, b = ml.canon_val(line["impl"]["store"]), ml.canon_val(tw.store_json())
+        if bad or '"nan"' in json.dumps(a) or '"nan"' in json.dumps(b):
+            stats["c13_out_of_scope"] = stats.get("c13_out_of_scope", 0) + 1
+            return
+        stats["c13_twin_checks"] = stats.get("c13_twin_checks", 0) + 1
+        if a != b:
+            self.fail("C13", "function-differs-from-assignments", {"args": op["args"]})
 
     def _index_leaves(self, label, spec):
         def walk(path, v):
@@ -738,12 +796,51 @@ def draw(rng, g, sess, kind, pick):
         return {"op": "query", "path": rng.choice(P + [["d", ["i", "n"]]] if g.nested else P)}
     if kind == "freeze":
         return {"op": "unfreeze" if sess.frozen else "freeze"}
+    if kind == "genfun":
+        blk = sess.blocked(False)
+        free = [q for q in P if pkey(q) not in mirror.defs and not any(comparable(q, b) for b in blk)]
+        if not free:
+            return None
+        args = rng.sample(free, min(len(free), rng.randint(1, 3)))
+        return {"op": "genfun", "args": [[q, rng.randint(-6, 9)] for q in args]}
     raise ValueError(kind)
+
+
+def scenario_c13_container(hist_id, stats, failures):
+    """D25's shape: a definition that reads an enclosing container (oracle only: the model has no calls)"""
+    import xdeps
+
+    def total(dct):
+        return sum(dct.values())
+    out = []
+    for use_fun in (True, False):
+        m = xdeps.Manager()
+        raw = {"n": {"x": 1, "y": 2}, "tot": 0}
+        d = m.ref(raw, "d")
+        F = m.ref({"total": total}, "F")
+        d["tot"] = F["total"](d["n"])
+        if use_fun:
+            f = m.gen_fun("f", x=d["n"]["x"])
+            f(5)
+        else:
+            d["n"]["x"] = 5
+        out.append(raw["tot"])
+    if out[0] != out[1]:
+        failures.append({"property": "C13", "kind": "function-differs-from-assignments", "hist": hist_id, "op_index": 0,
+                         "detail": {"scenario": "definition reads the enclosing container", "via_function": out[0], "via_assignment": out[1]},
+                         "known": None})
 
 
 def run_history(rng, family, hist_id, out_lines, stats, failures, maxops):
     sess = Session(hist_id, stats, failures, family)
     gen_history(rng, family, sess, maxops)
+    if family == "c13":
+        op = draw(rng, Gen.__new__(Gen), sess, "genfun", None) if False else None
+        blk = sess.blocked(False)
+        free = [q for q in sess.P if pkey(q) not in sess.mirror.defs and not any(comparable(q, b) for b in blk)]
+        if free and not sess.frozen:
+            args = rng.sample(free, min(len(free), rng.randint(1, 3)))
+            sess.step({"op": "genfun", "args": [[q, rng.randint(-6, 9)] for q in args]})
     if family == "c03" and not sess.frozen:
         try:
             twin_check(rng, sess.im, sess.mirror, sess.P, sess.fail, stats, hist_id)
@@ -938,7 +1035,9 @@ def main():
             lines.extend(sess.lines)
             hid += 1
             stats["histories"] += 1
-    if a.corpus:
+    if a.corpus and a.family == "c13":
+        scenario_c13_container(hid, stats, failures); hid += 1
+    elif a.corpus:
         scenario_d1(hid, lines, stats, failures); hid += 1
         scenario_d8(hid, stats, failures); hid += 1
         for n in [int(x) for x in a.chains.split(",") if x]:
